@@ -502,7 +502,9 @@ Inductive ev :=
 | EvHandshake (ok : bool) (depeof : bool)   (* the handshake response: parses or not; negotiated DEPRECATE_EOF *)
 | EvAuthReply (d : adecision)         (* the client's reply to an auth switch / more data, and the plugin's verdict *)
 | EvDecide (d : adecision)            (* get_user returned; the plugin's verdict on the data received so far *)
-| EvEof | EvEofMidPacket | EvBadSeq
+| EvEof
+| EvEofMidPacket (header_read : bool)   (* EOF inside a packet; after / before its 4 header bytes were consumed *)
+| EvBadSeq
 | EvApp (o : outcome)                 (* the pending application call returns / raises *)
 | EvRowReady | EvTick
 | EvPause | EvResume | EvSockFail
@@ -561,9 +563,16 @@ Definition step (s : st) (e : ev) : st * list out :=
         | WRead => raise_at (set_eof s) XClosed f None
         | _ => (set_eof s, [])
         end
-    | EvEofMidPacket | EvBadSeq =>
+    | EvEofMidPacket hdr =>
+        (* IncompleteReadError; the sequence counter advanced if the header had been read *)
         match w with
-        | WRead => raise_at (set_eof s) XOther f None
+        | WRead => raise_at (set_eof (if hdr then set_seq s ((seq s + 1) mod 256) else s)) XOther f None
+        | _ => (s, [])
+        end
+    | EvBadSeq =>
+        (* MysqlError(MALFORMED_PACKET) raised by stream.read() after next(self.seq) *)
+        match w with
+        | WRead => raise_at (set_seq s ((seq s + 1) mod 256)) (XMysql 1835) f None
         | _ => (s, [])
         end
     | EvPayload c =>
